@@ -2,7 +2,7 @@
    conservation and frame, for every stack type at once (over a lens). *)
 From Coq Require Import ZArith String List Bool Lia Permutation ZifyBool.
 From PushModel Require Import Base.Sx Base.Machine Base.ListOps Base.F32 Model.Item Model.GraphT Model.State
-  Model.InstrBase Spec.SeqSpec.
+  Model.InstrBase Spec.SeqSpec Proofs.Frame.
 Import ListNotations.
 Open Scope Z_scope.
 
@@ -81,9 +81,11 @@ End ListFacts.
 Record lens (A : Type) := {
   lget : state -> list A;
   lset : state -> list A -> state;
+  lmask : mask;                                   (* the one field the lens reaches *)
   l_get_set : forall s v, lget (lset s v) = v;
+  l_frame : forall s v, same_outside lmask s (lset s v);
 }.
-Arguments lget {A}. Arguments lset {A}. Arguments l_get_set {A}.
+Arguments lget {A}. Arguments lset {A}. Arguments lmask {A}. Arguments l_get_set {A}. Arguments l_frame {A}.
 
 Section Generic.
   Context {A : Type} (L : lens A).
@@ -182,4 +184,68 @@ Section Generic.
 
   Theorem g_depth_spec s : small s -> g_depth get s = Ok (set_int s (zlen (get s) :: st_int s)).
   Proof. intros Sm. unfold g_depth. now rewrite (len32_small _ Sm). Qed.
+
+  (* ---- frame: nothing but the instruction's own stack (and INTEGER for the index) changes ---- *)
+  Lemma set_int_frame s r : same_outside (also_int mask_none) s (set_int s r).
+  Proof. so_split; intros; try discriminate; reflexivity. Qed.
+
+  Theorem g_unary_frame s s' :
+    g_dup get set s = Ok s' \/ g_pop get set s = Ok s' \/ g_swap get set s = Ok s' \/
+    g_rot get set s = Ok s' \/ g_flush set s = Ok s' ->
+    same_outside (lmask L) s s'.
+  Proof.
+    unfold g_dup, g_pop, g_swap, g_rot, g_flush.
+    intros [H|[H|[H|[H|H]]]]; try (destruct (get s)); inversion H; subst;
+      try apply same_outside_refl; apply l_frame.
+  Qed.
+
+  Theorem g_index_frame s s' :
+    g_yank get set s = Ok s' \/ g_shove get set s = Ok s' \/ g_yankdup get set s = Ok s' ->
+    same_outside (mask_union (also_int mask_none) (lmask L)) s s'.
+  Proof.
+    unfold g_yank, g_shove, g_yankdup.
+    intros [H|[H|H]]; destruct (st_int s) as [|idx r]; try (inversion H; subst; apply same_outside_refl).
+    - inversion H; subst. eapply same_outside_trans; [apply set_int_frame|apply l_frame].
+    - inversion H; subst. eapply same_outside_trans; [apply set_int_frame|apply l_frame].
+    - destruct (l_copy _ _); inversion H; subst.
+      + eapply same_outside_trans; [apply set_int_frame|apply l_frame].
+      + eapply same_outside_weaken; [|apply set_int_frame]. mask_le_tac.
+  Qed.
+
+  Theorem g_depth_frame s s' : g_depth get s = Ok s' -> same_outside (also_int mask_none) s s'.
+  Proof. unfold g_depth. intros H; inversion H. apply set_int_frame. Qed.
 End Generic.
+
+(* ---- the nine stack types as lenses ---- *)
+Ltac lens_frame := intros; so_split; intros; try discriminate; reflexivity.
+Program Definition L_bool : lens bool := {| lget := st_bool; lset := set_bool; lmask := also_bool mask_none |}.
+Next Obligation. lens_frame. Qed.
+Program Definition L_int : lens Z := {| lget := st_int; lset := set_int; lmask := also_int mask_none |}.
+Next Obligation. lens_frame. Qed.
+Program Definition L_float : lens f32 := {| lget := st_float; lset := set_float; lmask := also_float mask_none |}.
+Next Obligation. lens_frame. Qed.
+Program Definition L_name : lens str := {| lget := st_name; lset := set_name; lmask := also_name mask_none |}.
+Next Obligation. lens_frame. Qed.
+Program Definition L_code : lens item := {| lget := st_code; lset := set_code; lmask := also_code mask_none |}.
+Next Obligation. lens_frame. Qed.
+Program Definition L_exec : lens item := {| lget := st_exec; lset := set_exec; lmask := also_exec mask_none |}.
+Next Obligation. lens_frame. Qed.
+Program Definition L_bvec : lens (list bool) := {| lget := st_bvec; lset := set_bvec; lmask := also_bvec mask_none |}.
+Next Obligation. lens_frame. Qed.
+Program Definition L_ivec : lens (list Z) := {| lget := st_ivec; lset := set_ivec; lmask := also_ivec mask_none |}.
+Next Obligation. lens_frame. Qed.
+Program Definition L_fvec : lens (list f32) := {| lget := st_fvec; lset := set_fvec; lmask := also_fvec mask_none |}.
+Next Obligation. lens_frame. Qed.
+
+(* every lens except INTEGER is untouched by popping the index *)
+Lemma lens_indep_int :
+  (forall s r, lget L_bool (set_int s r) = lget L_bool s) /\
+  (forall s r, lget L_float (set_int s r) = lget L_float s) /\
+  (forall s r, lget L_name (set_int s r) = lget L_name s) /\
+  (forall s r, lget L_code (set_int s r) = lget L_code s) /\
+  (forall s r, lget L_exec (set_int s r) = lget L_exec s) /\
+  (forall s r, lget L_bvec (set_int s r) = lget L_bvec s) /\
+  (forall s r, lget L_ivec (set_int s r) = lget L_ivec s) /\
+  (forall s r, lget L_fvec (set_int s r) = lget L_fvec s) /\
+  (forall s r, lget L_int (set_int s r) = r).
+Proof. repeat split; reflexivity. Qed.
